@@ -117,6 +117,10 @@ fn pool_shapes() -> Vec<(&'static str, PoolStyle, bool)> {
         ("duplicates", PoolStyle::Duplicates, false),
         ("overcounted", PoolStyle::OverCounted, false),
         ("long-string", PoolStyle::Dense, true),
+        // a long string whose reference count differs from the high word of
+        // its length (over-counted: count 6; duplicates: split references)
+        ("long-string-overcounted", PoolStyle::OverCounted, true),
+        ("long-string-holes", PoolStyle::Holes, true),
     ]
 }
 
@@ -136,7 +140,11 @@ fn cases(tier: Tier) -> Vec<FileCase> {
                         db.pool_style = style;
                         if long {
                             let big = format!("{}{}", text[1], "x".repeat(70000));
-                            db.tables[1].rows[0][1] = Val::Str(big);
+                            // referenced twice (count 2, high word of the length 1)
+                            db.tables[1].rows[0][1] = Val::Str(big.clone());
+                            db.tables[1].rows[2][1] = Val::Str(big);
+                            // and one of 140000 bytes referenced once (count 1, high word 2)
+                            db.tables[0].rows[1][2] = Val::Str(format!("{}{}", text[0], "y".repeat(140000)));
                         }
                         db.summary.order = order;
                         db.summary.extra_padding = pad;
